@@ -184,6 +184,23 @@ int cmdWalk(int argc, char** argv) {
 									lrc == 0 ? project(r, um2, po).c_str() : "{\"blocks\":[]}");
 						}
 					}
+					// the sorting and pruning save of this node's model loads again (every few nodes: it is the slower save)
+					if (pos % 4 == 0) {
+						fseek(mark, 0, SEEK_SET);
+						fprintf(mark, "%zu -1\n", pos);
+						fflush(mark);
+						NifFile c(nif);
+						uint32_t before = c.GetHeader().GetNumBlocks();
+						std::string bytes = saveToString(c, true, true);
+						NifFile r;
+						int lrc = loadFromString(r, bytes);
+						if (lrc != 0 || r.GetHeader().GetNumBlocks() > before || (sampleEvery && pos % (4 * sampleEvery) == 0)) {
+							UidMap um2;
+							ProjOpts po;
+							fprintf(out, "{\"e\":\"reloaddef\",\"node\":%zu,\"rc\":%d,\"before\":%u,\"post\":%s}\n", pos, lrc, before,
+									lrc == 0 ? project(r, um2, po).c_str() : "{\"blocks\":[],\"types\":[],\"tidx\":[],\"sz\":[],\"hs\":false,\"hdrBlocks\":0}");
+						}
+					}
 					for (size_t e = 0; e < w.nodes[n].out.size(); e++) {
 						if (skip.count({(int) pos, (int) e})) continue;
 						fseek(mark, 0, SEEK_SET);
